@@ -6,7 +6,7 @@
  R4  constructor registration with the parent is paired with deregistration in the destructor; freeResources covers every object ring
  R5  the six handle classes implement copy / assign / destroy through the protocol functions
 """
-from vlib.facts import kids, strip, walk, is_call, call_args, call_object, callee, render, is_null_const
+from vlib.facts import kids, strip, walk, is_call, call_args, call_object, callee, render, is_null_const, noid
 from vlib.cfg import write_target
 from vlib.work import AnalysisBroken
 
@@ -83,6 +83,7 @@ def run(ctx):
     R.rule("C01-R3", "delete of a mode object only at an enumerated site under its guard", floor=13)
     R.rule("C01-R4", "constructor registration with the parent object is undone by the destructor; freeResources frees every object ring", floor=8)
     R.rule("C01-R5", "handle copy-ctor / operator= / destructor go through setModeX / removeXRef; isInitialized tests the pointer", floor=18)
+    R.rule("C01-R6", "ring list surgery: link updates of ringEntry_t::removeRef / ring_t::addRef / ring_t::removeRef / needsFree (as sets of assignments and guards)", floor=8)
 
     # ---- discover handle fields ------------------------------------------------
     hfield = {}
@@ -427,6 +428,107 @@ def run(ctx):
             rets = [n for n in f.walk() if n["k"] == "ReturnStmt"]
             ok = bool(rets) and all(any(x["k"] == "MemberExpr" and x.get("n") == fq for x in walk(r)) for r in rets)
             R.ob("C01-R5", ok, f.q, "isInitialized:tests-pointer", "%s:%d" % (f.relfile, f.d["line"]), "isInitialized() is a function of the mode pointer")
+
+    # ---- R6: the ring itself (shape of the list surgery; order of independent assignments is free) ---------------------
+    def rr(f, e, depth=0):
+        """render with single-definition locals replaced by their initialiser (local names do not matter)"""
+        e = strip(e)
+        if e is None:
+            return "?"
+        if e["k"] == "DeclRefExpr" and e.get("loc") and depth < 3 and e["d"] not in f.param_ids():
+            ds = f.local_defs().get(e["d"], [])
+            if len(ds) == 1 and ds[0]["k"] == "VarDecl" and kids(ds[0]):
+                return rr(f, kids(ds[0])[0], depth + 1)
+        if e["k"] == "MemberExpr" and kids(e):
+            return "%s%s%s" % (rr(f, kids(e)[0], depth), "->" if e.get("arrow") else ".", e.get("n", "?").split("::")[-1])
+        return render(e, False)
+
+    def leaves(f, e):
+        e = strip(e)
+        if e["k"] == "ConditionalOperator":
+            return leaves(f, kids(e)[1]) | leaves(f, kids(e)[2])
+        if e["k"] == "BinaryOperator" and e.get("op") == "=":
+            return leaves(f, kids(e)[1])
+        return {rr(f, e)}
+
+    def assigns(f):
+        out = set()
+        for n in f.walk():
+            t = write_target(n)
+            if t is not None and n.get("op") == "=":
+                for v in leaves(f, kids(n)[1]):
+                    out.add((rr(f, t), v))
+        return out
+    er = prog.fn("occa::gc::ringEntry_t::removeRef")
+    a = assigns(er)
+    want = {("this->leftRingEntry->rightRingEntry", "this->rightRingEntry"), ("this->rightRingEntry->leftRingEntry", "this->leftRingEntry"),
+            ("this->leftRingEntry", "this"), ("this->rightRingEntry", "this")}
+    R.ob("C01-R6", want <= a, er.q, "unlink: neighbours bridged, entry self-looped", "%s:%d" % (er.relfile, er.d["line"]),
+         "left.right = right; right.left = left; left = right = this" if want <= a else "the entry is not unlinked correctly: %s" % sorted(want - a))
+    ctor = prog.fn("occa::gc::ringEntry_t::ringEntry_t")
+    inits = {(i.get("fname"), render(i["e"], False)) for i in ctor.d.get("inits", ())}
+    R.ob("C01-R6", {("leftRingEntry", "this"), ("rightRingEntry", "this")} <= inits, ctor.q, "new entry is a self-loop", "%s:%d" % (ctor.relfile, ctor.d["line"]), "both links start at this")
+    ring = {}
+    for f in prog.funcs.values():
+        if f.d.get("tmpl") == "pattern" and f.q.startswith("occa::gc::ring_t::"):
+            ring.setdefault(f.q.split("::")[-1], []).append(f)
+    if not {"addRef", "removeRef", "needsFree"} <= set(ring):
+        raise AnalysisBroken("gc::ring_t member patterns not found")
+    ad = ring["addRef"][0]
+    a = assigns(ad)
+    want = {("entry->leftRingEntry", "this->head->leftRingEntry"), ("this->head->leftRingEntry->rightRingEntry", "entry"), ("this->head->leftRingEntry", "entry"),
+            ("entry->rightRingEntry", "this->head"), ("this->head", "entry")}
+    R.ob("C01-R6", want <= a, ad.q, "insert before head: four links + first-entry case", "%s:%d" % (ad.relfile, ad.d["line"]),
+         "entry.left = tail; tail.right = entry; head.left = entry; entry.right = head; empty ring: head = entry" if want <= a else "insertion links differ: missing %s" % sorted(want - a))
+    # the old tail must be read before head->left is overwritten
+    rd = [n for n in ad.walk() if n["k"] == "VarDecl" and kids(n) and rr(ad, kids(n)[0]) == "this->head->leftRingEntry"]
+    wr = [n for n in ad.walk() if write_target(n) is not None and rr(ad, write_target(n)) == "this->head->leftRingEntry"]
+    R.ob("C01-R6", bool(rd) and bool(wr) and all(ad.cfg.before(rd[0], w) for w in wr), ad.q, "old tail read before head->left is overwritten", ad.site(rd[0]) if rd else ad.relfile, "tail taken from the head's left link first")
+    unl = [c for c in ad.walk() if c["k"] == "CallExpr" and "entry->removeRef" in render(kids(c)[0], False)]
+    relink = [n for n in ad.walk() if write_target(n) is not None and render(strip(write_target(n)), False) in ("entry->leftRingEntry", "this->head")]
+    ok = len(unl) == 1 and all(ad.cfg.before(unl[0], n) for n in relink)
+    R.ob("C01-R6", ok, ad.q, "entry leaves its previous ring before joining", ad.site(unl[0]) if unl else ad.relfile, "entry->removeRef() precedes every relink")
+    conds = [render(kids(n)[0], False) for n in ad.walk() if n["k"] == "IfStmt"]
+    ok = any("(!entry)" in c and "this->head == entry" in c for c in conds) and any(c == "(!this->head)" for c in conds)
+    R.ob("C01-R6", ok, ad.q, "guards: null entry / already head / empty ring", "%s:%d" % (ad.relfile, ad.d["line"]), "conditions %s" % conds)
+    for rm in ring["removeRef"]:
+        a = assigns(rm)
+        hw = {v for (t_, v) in a if t_ == "this->head"}
+        ok = hw == {"this->head->leftRingEntry", "NULL"}
+        R.ob("C01-R6", ok, rm.q + " " + rm.d["sig"], "head moves to the old tail, or NULL when the ring empties", "%s:%d" % (rm.relfile, rm.d["line"]), "head becomes the old tail or NULL" if ok else "head update is %s" % sorted(hw))
+        # NULL exactly when the removed entry was the only one (tail == entry)
+        nullw = [n for n in rm.walk() if n["k"] == "ConditionalOperator" and "NULL" in leaves(rm, n)] + [n for n in rm.walk() if write_target(n) is not None and rr(rm, write_target(n)) == "this->head" and leaves(rm, kids(n)[1]) == {"NULL"}]
+        okn = False
+        for n in nullw:
+            if n["k"] == "ConditionalOperator":
+                c_ = rr(rm, kids(n)[0]) if False else render(kids(n)[0], False)
+                cond = strip(kids(n)[0])
+                okn = cond["k"] == "BinaryOperator" and cond.get("op") in ("!=", "==") and {rr(rm, kids(cond)[0]), rr(rm, kids(cond)[1])} == {"this->head->leftRingEntry", "entry"} and \
+                    ((cond["op"] == "!=" and leaves(rm, kids(n)[2]) == {"NULL"}) or (cond["op"] == "==" and leaves(rm, kids(n)[1]) == {"NULL"}))
+            else:
+                fsn = {(noid(k), pol) for (k, pol) in rm.cfg.facts_at(n)}
+                okn = any(("tail == entry" in k and pol) for (k, pol) in fsn)
+        R.ob("C01-R6", okn, rm.q + " " + rm.d["sig"], "head = NULL exactly when the old tail is the removed entry", "%s:%d" % (rm.relfile, rm.d["line"]), "the ring empties only when its single entry is removed")
+        unl = [c for c in rm.walk() if c["k"] == "CallExpr" and "entry->removeRef" in render(kids(c)[0], False)]
+        tl = [n for n in rm.walk() if n["k"] == "VarDecl" and kids(n) and rr(rm, kids(n)[0]) == "this->head->leftRingEntry"]
+        hd = [n for n in rm.walk() if write_target(n) is not None and render(strip(write_target(n)), False) == "this->head"]
+        ok = len(unl) == 1 and len(tl) == 1 and rm.cfg.before(tl[0], unl[0]) and all(rm.cfg.before(unl[0], n) for n in hd)
+        R.ob("C01-R6", ok, rm.q + " " + rm.d["sig"], "tail read before unlinking, head fixed after", "%s:%d" % (rm.relfile, rm.d["line"]), "tail = head->left; entry->removeRef(); then head")
+        fs = {k for (k, pol) in rm.cfg.facts_at(hd[0]) if pol} if hd else set()
+        R.ob("C01-R6", any("this->head == entry" in k for k in fs), rm.q + " " + rm.d["sig"], "head changes only when the removed entry was the head", rm.site(hd[0]) if hd else rm.relfile, "guarded by head == entry")
+    nf = ring["needsFree"][0]
+    rets = [r for r in nf.walk() if r["k"] == "ReturnStmt"]
+    atoms_ = set()
+    def cj(e):
+        e = strip(e)
+        if e["k"] == "BinaryOperator" and e.get("op") == "&&":
+            cj(kids(e)[0]); cj(kids(e)[1])
+        else:
+            atoms_.add(render(e, False).replace(" ", ""))
+    if len(rets) == 1:
+        cj(kids(rets[0])[0])
+    ok = len(rets) == 1 and "this->useRefs" in atoms_ and (atoms_ & {"(this->head==NULL)", "(!this->head)", "(NULL==this->head)"}) and len(atoms_) == 2
+    R.ob("C01-R6", ok, nf.q, "needsFree = useRefs && head == NULL", "%s:%d" % (nf.relfile, nf.d["line"]), "an object is freed only when no handle references it and reference counting is on")
 
 
 META = {
